@@ -267,3 +267,45 @@ Fixpoint id_split (str : bytes) : option (list ccode) :=
   | hi :: lo :: r => match id_split r with Some l => Some ([hi; lo] :: l) | None => None end
   | _ => None
   end.
+
+(* ---------------- NewFromCMap: the tables of an arbitrary CMap ---------------------
+   NewFromCMap iterates cmap.All(codec) - the ranges and singles of the parent chain,
+   root first - and stores  all[cid] = code  and  rev[code] = cid  for every pair, so
+   in both tables the LAST pair wins.  [l] is that sequence of pairs. *)
+Fixpoint tbl_all (l : list (ccode * cid)) (c : cid) : option ccode :=
+  match l with
+  | [] => None
+  | (code, c') :: r =>
+    match tbl_all r c with
+    | Some x => Some x
+    | None => if c =? c' then Some code else None
+    end
+  end.
+
+Fixpoint tbl_rev_opt (l : list (ccode * cid)) (code : ccode) : option cid :=
+  match l with
+  | [] => None
+  | (code', c) :: r =>
+    match tbl_rev_opt r code with
+    | Some x => Some x
+    | None => if bytes_eqb code code' then Some c else None
+    end
+  end.
+
+Definition tbl_rev (l : list (ccode * cid)) (code : ccode) : cid :=
+  match tbl_rev_opt l code with Some c => c | None => 0 end.
+
+(* a construction of the CID -> code table that only keeps codes which the CMap really
+   maps to the CID (what a repaired NewFromCMap would store): the last pair (code, c)
+   whose code is not re-mapped by a later pair *)
+Fixpoint tbl_all_sound_aux (whole l : list (ccode * cid)) (c : cid) : option ccode :=
+  match l with
+  | [] => None
+  | (code, c') :: r =>
+    match tbl_all_sound_aux whole r c with
+    | Some x => Some x
+    | None => if (c =? c') && (tbl_rev whole code =? c) then Some code else None
+    end
+  end.
+
+Definition tbl_all_sound (l : list (ccode * cid)) (c : cid) : option ccode := tbl_all_sound_aux l l c.
